@@ -104,11 +104,15 @@ SetCalls == <<Call(1, <<>>, <<>>, 0, TRUE)>>
             \o [q \in 1..(3 * NVar) |-> Call(((q - 1) % 3) + 1, <<>>, <<>>, q, TRUE)]
 
 \* parallel sampling: equal (seed, P, n, thinning) under different delay seeds must reproduce
-SCall(p, n, seed, thin, ds) == [P |-> p, n |-> n, seed |-> seed, thin |-> thin, ds |-> ds, l1 |-> <<>>, l2 |-> <<>>, dflt |-> TRUE]
+\* rounds: sample(n) is called that many times on the SAME sampler object (the rows of all calls count)
+SCall(p, n, seed, thin, ds) == [P |-> p, n |-> n, seed |-> seed, thin |-> thin, ds |-> ds, l1 |-> <<>>, l2 |-> <<>>, dflt |-> TRUE,
+                                rounds |-> 1]
 OptgpCalls(r) ==
   LET s == 1 + (r % 499) IN
   <<SCall(1, 6, s, 2, 0), SCall(2, 6, s, 2, 0), SCall(2, 6, s, 2, 3), SCall(3, 7, s, 1, 1), SCall(3, 7, s, 1, 4),
-    SCall(2, 5, s + 1, 2, 2), SCall(1, 6, s, 2, 5), SCall(3, 7, s, 1, 6)>>
+    SCall(2, 5, s + 1, 2, 2), SCall(1, 6, s, 2, 5), SCall(3, 7, s, 1, 6),
+    [SCall(2, 5, s + 2, 1, 1) EXCEPT !.rounds = 3], [SCall(2, 5, s + 2, 1, 5) EXCEPT !.rounds = 3],
+    [SCall(3, 7, s + 2, 1, 2) EXCEPT !.rounds = 2]>>
 
 CallsOf(I, kind, r) ==
   LET U == IF kind \in GeneKinds THEN GeneSeq(I) ELSE I.M.rxns IN
